@@ -232,7 +232,8 @@ func auditScenarios(tier string) []scenario {
 		}
 	}
 	// J. round 7: queued payloads of k x the lowered MAX_FRAME_SIZE (round7.go)
-	return append(out, resplitScenarios(tier)...)
+	out = append(out, resplitScenarios(tier)...)
+	return append(out, round8Scenarios(tier)...)
 }
 
 // passProc forwards every call to the next processor of the chain.
